@@ -1268,11 +1268,7 @@ def ring_letter(a, cur_rid=0):
     return d
 
 
-def run_C14(ctx):
-    hist = ctx.tlc_mc("MC_RingCfg", "MC_RingCfg_" + ctx.tier)
-    rnd = random.Random(ctx.seed)
-    if ctx.tier == "thorough" and len(hist) > 120000:
-        hist = rnd.sample(hist, 120000)
+def c14_cases(hist, rnd, offered):
     cases = []
     for i, c in enumerate(hist):
         pool, G = mem_pool(rnd)
@@ -1291,15 +1287,35 @@ def run_C14(ctx):
             body.append(ring_letter(a, cur_rid))
             if a["op"] == "set_mem_table":
                 cur_rid = a["n"]
-        case = dict(nq=2, masks=[3], maxq=256, pool=pool, vring="rwlock" if i % 2 else "mutex", adapter=("arc", "mutex", "rwlock")[i % 3],
+        case = dict(nq=2, masks=[3], maxq=256, pool=pool, features=offered, vring="rwlock" if i % 2 else "mutex", adapter=("arc", "mutex", "rwlock")[i % 3],
                     steps=pre + body)
         if i % 4 == 3 or any(a["op"] == "brfd" for a in c["steps"]) and i % 2:
             # a device that does not list REPLY_ACK itself: the library offers (and negotiates) it on the device's behalf
             case["pf"] = [b for b in range(22) if b not in (3, 8, 17)]
         cases.append(case)
-    cases = replay_or(ctx, "daemon", cases)
-    tr = ctx.harness("daemon", cases, shards=12)
-    viol = ctx.tlc_tv("TV_RingCfg", tr, "daemon")
+    return cases
+
+
+def run_C14(ctx):
+    rnd = random.Random(ctx.seed)
+    viol = []
+    tr = None
+    # the same letters against two devices: one that offers VHOST_F_LOG_ALL (bit 26) among its features and one that does not
+    # ("feature masks ... relative to arbitrary offered masks": what is not offered must be refused whatever else was negotiated)
+    variants = [("", "MC_RingCfg_" + ctx.tier, "TV_RingCfg", [0, 26, 29, 30, 32]), ("_b", "MC_RingCfg_" + ctx.tier + "_b", "TV_RingCfgB", [0, 29, 30, 32])]
+    if ctx.replay is not None:
+        variants = [v for v in variants if v[2] == ctx.replay.get("tv", "TV_RingCfg")] or variants[:1]
+    for tag, cfgname, tvname, offered in variants:
+        hist = ctx.tlc_mc("MC_RingCfg", cfgname)
+        if tag and ctx.tier == "quick":
+            # the second device repeats only the histories in which feature negotiation takes part
+            hist = [c for c in hist if any(a["op"] in ("set_features", "set_protocol_features") for a in c["steps"])]
+        if ctx.tier == "thorough" and len(hist) > 120000:
+            hist = rnd.sample(hist, 120000)
+        cases = c14_cases(hist, rnd, offered)
+        cases = replay_or(ctx, "daemon", cases)
+        tr = ctx.harness("daemon", cases, tag, shards=12)
+        viol += ctx.tlc_tv(tvname, tr, "daemon")
     ctx.count_distinct(tr, lambda e: (e.get("op"), json.dumps(e.get("letter"), sort_keys=True), e.get("status")),
                        lambda e: e.get("ev") == "step" and e.get("op") not in ("negotiate",))
     ctx.sample(tr, 2, skip=6)
